@@ -65,6 +65,12 @@ func (l *queryLog) searchMemory(
 	defer l.bufferLock.Unlock()
 
 	l.buffer.ReverseRange(func(entry *logEntry) (cont bool) {
+		// Like the entries read from the files, the entries in the buffer may
+		// have been added before the host has been ignored.
+		if l.isIgnored(entry.QHost) {
+			return true
+		}
+
 		// A shallow clone is enough, since the only thing that this loop
 		// modifies is the client field.
 		e := entry.shallowClone()
@@ -82,6 +88,10 @@ func (l *queryLog) searchMemory(
 			)
 
 			// Go on and try to match anyway.
+		}
+
+		if e.client != nil && e.client.IgnoreQueryLog {
+			return true
 		}
 
 		if params.match(e) {
